@@ -18,6 +18,9 @@ import QV.Lemmas.StoreIO
 import QV.Lemmas.PhaseAux
 import QV.Lemmas.Optim
 import QV.Model.Density
+import QV.Model.Frame
+import QV.Real
+import QV.Lemmas.InitLaw
 
 namespace QV.Props
 namespace C20
@@ -608,6 +611,130 @@ example : ∀ g ∈ [batchGradAux [(0 : ℝ)] 2,
     rcases hc with rfl | rfl
     · exact .rotated 1 1 _ _ (fun _ _ _ => ((0.3 : ℝ), 0.7))
     · exact .zBasis
+
+/-! ### Extension round 2: the initialisation LAW (values of the weights as a function of the draws)
+
+`QV.Model.InitLaw.initParams` models `initialize_parameters` entry by entry; the theorems below relate it to
+the declarative specification "`W[i][j] = z[pos + i·n + j] / √n`, `U[i][j] = z[pos + H·n + i·n + j] / √n`,
+all biases 0", to the draw counts of `QV.Model.Frame` (C14) and to the documented size defaults. -/
+
+/-- a list of rows is an `r × c` matrix -/
+def IsMat (M : List (List ℝ)) (r c : ℕ) : Prop := M.length = r ∧ ∀ row ∈ M, row.length = c
+
+/-- entry `(i, j)` of a list of rows -/
+def entry (M : List (List ℝ)) (i j : ℕ) : ℝ := (M.getD i []).getD j 0
+
+/-- documented default of `num_aux` (`PurificationRBM` only; a `BinaryRBM` has none: 0): `None → num_visible`,
+anything else (incl. 0) kept -/
+def auxDefault (k : NetKind) (n : ℕ) (na : Option ℕ) : ℕ :=
+  match k, na with
+  | .binary, _ => 0
+  | .purif, none => n
+  | .purif, some x => x
+
+/-- **C20_init_values.** `initialize_parameters()` (random branch) of a module with sizes `n, H, A`, for EVERY
+stream of standard-normal draws `z` and stream position `pos`: the weight matrix is `H × n` with
+`W[i][j] = z[pos + i·n + j] / √n` (row-major, the first `H·n` draws), for a `PurificationRBM` the second matrix is
+`A × n` with `U[i][j] = z[pos + H·n + i·n + j] / √n` (the NEXT `A·n` draws: W before U), every bias is exactly 0
+(length `n`, `H`, `A`), a `BinaryRBM` has no `U` / aux bias, and the stream advances by exactly `H·n` (`H·n + A·n`). -/
+theorem C20_init_values (k : NetKind) (n H A : ℕ) (z : ℕ → ℝ) (pos : ℕ) :
+    IsMat (InitLaw.initParams k n H A false z pos).1.W H n ∧
+    (∀ i < H, ∀ j < n, entry (InitLaw.initParams k n H A false z pos).1.W i j = z (pos + (i * n + j)) / Real.sqrt n) ∧
+    (InitLaw.initParams k n H A false z pos).1.b = List.replicate n 0 ∧
+    (InitLaw.initParams k n H A false z pos).1.c = List.replicate H 0 ∧
+    (k = .binary → (InitLaw.initParams k n H A false z pos).1.U = none ∧
+        (InitLaw.initParams k n H A false z pos).1.d = none ∧
+        (InitLaw.initParams k n H A false z pos).2 = pos + H * n) ∧
+    (k = .purif → ∃ U, (InitLaw.initParams k n H A false z pos).1.U = some U ∧ IsMat U A n ∧
+        (∀ i < A, ∀ j < n, entry U i j = z (pos + H * n + (i * n + j)) / Real.sqrt n) ∧
+        (InitLaw.initParams k n H A false z pos).1.d = some (List.replicate A 0) ∧
+        (InitLaw.initParams k n H A false z pos).2 = pos + H * n + A * n) := by
+  have hW : ∀ i < H, ∀ j < n, entry (InitLaw.tab2 H n (fun i j => z (pos + (i * n + j)) / InitLaw.scale n)) i j
+      = z (pos + (i * n + j)) / Real.sqrt n := by
+    intro i hi j hj
+    exact InitLaw.tab2_entry (0 : ℝ) H n _ hi hj
+  cases k
+  · refine ⟨⟨InitLaw.tab2_length _ _ _, InitLaw.tab2_row_length _ _ _⟩, hW, rfl, rfl, fun _ => ⟨rfl, rfl, rfl⟩, (fun h => by cases h)⟩
+  · refine ⟨⟨InitLaw.tab2_length _ _ _, InitLaw.tab2_row_length _ _ _⟩, hW, rfl, rfl, (fun h => by cases h), fun _ => ?_⟩
+    refine ⟨_, rfl, ⟨InitLaw.tab2_length _ _ _, InitLaw.tab2_row_length _ _ _⟩, ?_, rfl, rfl⟩
+    intro i hi j hj
+    exact InitLaw.tab2_entry (0 : ℝ) A n _ hi hj
+
+/-- **C20_init_draw_count.** The number of draws `initialize_parameters` consumes in the value model is the
+number of `torch.randn` elements C14's call model (`QV.Frame.netInitCalls`) lists for one network of that
+architecture: `H·n` for the wavefunction kinds (BinaryRBM), `H·n + A·n` for the density matrix (PurificationRBM). -/
+theorem C20_init_draw_count (k : NetKind) (Ar : Frame.Arch) (hk : Ar.kind = .dens ↔ k = .purif)
+    (z : ℕ → ℝ) (pos : ℕ) :
+    (InitLaw.initParams k Ar.n Ar.h Ar.a false z pos).2 = pos + Frame.callsTotal (Frame.netInitCalls Ar) := by
+  obtain ⟨kind, n, h, a⟩ := Ar
+  cases k <;> cases kind <;> simp_all [InitLaw.initParams, InitLaw.genMatrix, Frame.netInitCalls, Frame.callsTotal] <;> omega
+
+/-- **C20_init_zero_weights.** `initialize_parameters(zero_weights=True)`: NO draw is consumed (the stream position
+is returned unchanged), the result does not depend on the stream at all, the shapes are the same as in the random
+branch, and every entry of every weight matrix and every bias is exactly 0. -/
+theorem C20_init_zero_weights (k : NetKind) (n H A : ℕ) (z z' : ℕ → ℝ) (pos pos' : ℕ) :
+    (InitLaw.initParams k n H A true z pos).2 = pos ∧
+    (InitLaw.initParams k n H A true z pos).1 = (InitLaw.initParams k n H A true z' pos').1 ∧
+    IsMat (InitLaw.initParams k n H A true z pos).1.W H n ∧
+    (∀ row ∈ (InitLaw.initParams k n H A true z pos).1.W, ∀ x ∈ row, x = 0) ∧
+    (∀ U, (InitLaw.initParams k n H A true z pos).1.U = some U → k = .purif ∧ IsMat U A n ∧ ∀ row ∈ U, ∀ x ∈ row, x = 0) ∧
+    (k = .purif → (InitLaw.initParams k n H A true z pos).1.U ≠ none) ∧
+    (InitLaw.initParams k n H A true z pos).1.b = List.replicate n 0 ∧
+    (InitLaw.initParams k n H A true z pos).1.c = List.replicate H 0 ∧
+    (∀ d, (InitLaw.initParams k n H A true z pos).1.d = some d → d = List.replicate A 0) := by
+  have h0 : ∀ r c, ∀ row ∈ InitLaw.tab2 r c (fun _ _ => (0 : ℝ) / InitLaw.scale n), ∀ x ∈ row, x = 0 := by
+    intro r c row hrow x hx
+    rw [InitLaw.tab2_mem_const r c _ row hrow x hx, zero_div]
+  cases k
+  · refine ⟨rfl, rfl, ⟨InitLaw.tab2_length _ _ _, InitLaw.tab2_row_length _ _ _⟩, h0 _ _, ?_, (fun h => by cases h), rfl, rfl, ?_⟩
+    · intro U hU; cases hU
+    · intro d hd; cases hd
+  · refine ⟨rfl, rfl, ⟨InitLaw.tab2_length _ _ _, InitLaw.tab2_row_length _ _ _⟩, h0 _ _, ?_, (fun _ h => by cases h), rfl, rfl, ?_⟩
+    · intro U hU
+      cases hU
+      exact ⟨rfl, ⟨InitLaw.tab2_length _ _ _, InitLaw.tab2_row_length _ _ _⟩, h0 _ _⟩
+    · intro d hd; cases hd; rfl
+
+/-- **C20_default_sizes.** The constructors `BinaryRBM(n, num_hidden)` / `PurificationRBM(n, num_hidden, num_aux)` produce
+exactly what `initialize_parameters` produces for the DOCUMENTED sizes: `num_hidden` omitted → `n` (BinaryRBM: also 0 → `n`),
+`num_aux` omitted → `n` (NOT `num_hidden`); in particular the weight matrices have shapes `hiddenDefault × n` and
+`auxDefault × n` and the biases lengths `n`, `hiddenDefault`, `auxDefault`, with or without `zero_weights`. -/
+theorem C20_default_sizes (k : NetKind) (n : ℕ) (nh na : Option ℕ) (zw : Bool) (z : ℕ → ℝ) (pos : ℕ) :
+    InitLaw.construct k n nh na zw z pos
+      = InitLaw.initParams k n (hiddenDefault k n nh) (auxDefault k n na) zw z pos ∧
+    IsMat (InitLaw.construct k n nh na zw z pos).1.W (hiddenDefault k n nh) n ∧
+    (InitLaw.construct k n nh na zw z pos).1.b.length = n ∧
+    (InitLaw.construct k n nh na zw z pos).1.c.length = hiddenDefault k n nh ∧
+    (k = .purif → ∃ U d, (InitLaw.construct k n nh na zw z pos).1.U = some U ∧ IsMat U (auxDefault k n na) n ∧
+        (InitLaw.construct k n nh na zw z pos).1.d = some d ∧ d.length = auxDefault k n na) := by
+  have hA : defaultA k n na = (auxDefault k n na) := by
+    cases k <;> cases na <;> rfl
+  have e : InitLaw.construct k n nh na zw z pos
+      = InitLaw.initParams k n (hiddenDefault k n nh) (auxDefault k n na) zw z pos := by
+    simp only [InitLaw.construct, InitLaw.ctorSizes, hiddenDefault_eq, hA]
+  rw [e]
+  refine ⟨rfl, ?_⟩
+  cases k <;> cases zw
+  all_goals
+    refine ⟨⟨InitLaw.tab2_length _ _ _, InitLaw.tab2_row_length _ _ _⟩, by simp [InitLaw.initParams, InitLaw.zerosVec],
+      by simp [InitLaw.initParams, InitLaw.zerosVec], ?_⟩
+  · intro h; cases h
+  · intro h; cases h
+  · intro _
+    exact ⟨_, _, rfl, ⟨InitLaw.tab2_length _ _ _, InitLaw.tab2_row_length _ _ _⟩, rfl, by simp [InitLaw.zerosVec]⟩
+  · intro _
+    exact ⟨_, _, rfl, ⟨InitLaw.tab2_length _ _ _, InitLaw.tab2_row_length _ _ _⟩, rfl, by simp [InitLaw.zerosVec]⟩
+
+/-- a non-trivial instance of `C20_init_values` / `C20_default_sizes`: `PurificationRBM(4)` (both sizes omitted) from the
+stream `z_t = t` at position 5: `num_aux = 4`, and `U[1][2] = z[5 + 16 + 6] / √4`. -/
+example : ∃ U, (InitLaw.construct .purif 4 none none false (fun t => (t : ℝ)) 5).1.U = some U ∧ IsMat U 4 4 ∧
+    entry U 1 2 = (27 : ℝ) / Real.sqrt 4 ∧
+    (InitLaw.construct .purif 4 none none false (fun t => (t : ℝ)) 5).2 = 37 := by
+  obtain ⟨_, _, _, _, _, hp⟩ := C20_init_values .purif 4 4 4 (fun t => (t : ℝ)) 5
+  obtain ⟨U, hU, hM, hE, _, hc⟩ := hp rfl
+  refine ⟨U, hU, hM, ?_, hc⟩
+  have := hE 1 (by norm_num) 2 (by norm_num)
+  rw [this]; norm_num
 
 end C20
 end QV.Props
